@@ -180,6 +180,23 @@ def run_property(prop, harnesses, tier, seed, jobs, text, assumptions, design_re
                         futs_nat[h['name']] = x
                 return futs_nat[h['name']]
             pending = {}
+            # fair scheduling: one queue of not-yet-submitted jobs per harness, served round-robin, so that a wall budget is
+            # shared by the harnesses instead of being consumed by the first one
+            from collections import deque
+            queues = {}; rr = []
+            def enqueue(hn, args):
+                if hn not in queues: queues[hn] = deque(); rr.append(hn)
+                queues[hn].append(args)
+            def pump():
+                while len(pending) < 2 * jobs:
+                    live = [hn for hn in rr if queues[hn]]
+                    if not live: break
+                    # the harness with the fewest jobs in flight goes first
+                    infl = {hn: 0 for hn in live}
+                    for hn2 in pending.values():
+                        if hn2 in infl: infl[hn2] += 1
+                    hn = min(live, key=lambda x: infl[x])
+                    f = pool.submit(run_job, *queues[hn].popleft()); pending[f] = hn
             per_h = {}
             import threading
             for h in hs:
@@ -193,7 +210,8 @@ def run_property(prop, harnesses, tier, seed, jobs, text, assumptions, design_re
                 cfg.setdefault('time_budget', 150 if tier == 'quick' else 1500)
                 if wall_budget: cfg['deadline'] = t0 + wall_budget
                 per_h[h['name']] = dict(h=h, ll=ll, cfg=cfg, results=[], t0=time.time())
-                f = pool.submit(run_job, ll, cfg, (), (), bool(h.get('split'))); pending[f] = h['name']
+                enqueue(h['name'], (ll, cfg, (), (), bool(h.get('split'))))
+            pump()
             tlast = time.time()
             while pending:
                 done, _ = wait(list(pending), return_when=FIRST_COMPLETED, timeout=30)
@@ -207,11 +225,11 @@ def run_property(prop, harnesses, tier, seed, jobs, text, assumptions, design_re
                     split = ph['h'].get('split', 0)
                     if kind == 'choice':
                         for k in range(payload):
-                            f2 = pool.submit(run_job, ph['ll'], ph['cfg'], tuple(prefix) + (k,), forced, bool(split) and not forced); pending[f2] = hn
+                            enqueue(hn, (ph['ll'], ph['cfg'], tuple(prefix) + (k,), forced, bool(split) and not forced))
                     elif kind == 'probe':
                         import itertools
                         for fv in itertools.product((1, 0), repeat=split):
-                            f2 = pool.submit(run_job, ph['ll'], ph['cfg'], tuple(prefix), fv, False); pending[f2] = hn
+                            enqueue(hn, (ph['ll'], ph['cfg'], tuple(prefix), fv, False))
                     elif kind == 'skipped':
                         k = hn + ':wall budget of the run reached (job not run)'
                         agg['bound_hits'][k] = agg['bound_hits'].get(k, 0) + 1
@@ -219,6 +237,7 @@ def run_property(prop, harnesses, tier, seed, jobs, text, assumptions, design_re
                         agg['errors'].append('%s %s: %s' % (hn, list(prefix), payload))
                     else:
                         ph['results'].append((prefix, payload))
+                pump()
             # ---- per harness: aggregate, replay, differential
             for hn, ph in per_h.items():
                 h = ph['h']
@@ -234,6 +253,10 @@ def run_property(prop, harnesses, tier, seed, jobs, text, assumptions, design_re
                 # vacuity
                 for c in h.get('covers', []):
                     if not hstat['covers'].get(c):
+                        if any(k.startswith(hn + ':wall budget') for k in agg['bound_hits']) or any('exploration budget' in k for k in hstat['bound_hits']):
+                            k2 = hn + ':cover point "%s" not reached within the budget' % c
+                            agg['bound_hits'][k2] = agg['bound_hits'].get(k2, 0) + 1
+                            continue
                         agg['errors'].append('%s: vacuous — cover point "%s" not reached on any feasible path' % (hn, c))
                 nat = None
                 if h.get('native', True):
